@@ -100,7 +100,8 @@ def scen_of(mech):
                   skw={"alpn": [b"h2", b"http/1.1"]})
 
 
-OFFERS = ["none", "held", "held-noems", "held-noetm", "ticket-flip-first",
+OFFERS = ["none", "none-noems", "held", "held-noems", "held-noetm",
+          "ticket-flip-first",
           "ticket-flip-mid", "ticket-flip-last", "unknown-id", "foreign",
           "held-refreshed-clock", "held-other-hash", "held-same-hash",
           "held-copy", "held-no-alpn", "held-other-alpn", "held-other-sni",
@@ -141,6 +142,12 @@ def apply_offer(st, offer):
     srv = 0
     altered = False
     inconsistent = False
+    if offer == "none-noems":
+        # a fresh handshake by a client without extended_master_secret: the
+        # session it leaves behind lacks EMS, and every later offer of it by
+        # the default client carries the extension (RFC 7627 5.3: the server
+        # must then do a full handshake)
+        return None, {"useExtendedMasterSecret": False}, srv, False, False
     if offer == "none" or sess is None:
         return None, cset, srv, False, False
     # offers that alter the session work on a copy; the others hand over
@@ -476,6 +483,10 @@ def step(st, ev, seed):
             rec["inconsistent"] = False
         elif rec["offer"] == "held-noetm" and not st.meta["etm"]:
             rec["inconsistent"] = False
+    if not tls13 and st.meta is not None and rec["offered"] and \
+            not st.meta["ems"] and rec["offer"] != "held-noems":
+        # the session has no EMS, this hello offers it
+        rec["inconsistent"] = True
     declined_ticket12 = (not tls13 and mech["tickets"] and rec["offered"]
                          and st.held is not None and
                          bool(st.held.tls_1_0_tickets))
@@ -601,6 +612,8 @@ def search(item):
             if ev[0] == "close" and st.last is None:
                 continue
             if ev[0] == "connect" and ev[1] != "none" and st.held is None:
+                continue
+            if ev[1:] == ("none-noems",) and st.mech["version"] >= (3, 4):
                 continue
             if ev[0] == "rotate" and not st.servers[0].keys:
                 continue
@@ -750,6 +763,8 @@ def search_core(st, hist, first, d, seed, evs, stats):
         if ev[0] == "close" and st.last is None:
             continue
         if ev[0] == "connect" and ev[1] != "none" and st.held is None:
+            continue
+        if ev[1:] == ("none-noems",) and st.mech["version"] >= (3, 4):
             continue
         if ev[0] == "rotate" and not st.servers[0].keys:
             continue
